@@ -413,6 +413,7 @@ func main() {
 			Samples   []any             `json:"samples"`
 			Findings  []balenum.Finding `json:"findings"`
 			Extra     map[string]int64  `json:"extra"`
+			Wall      float64           `json:"wall_s"`
 		}
 		if err := json.Unmarshal(b, &s); err != nil {
 			ev.InfraError("kfake harness summary unreadable: %v", err)
@@ -427,6 +428,7 @@ func main() {
 		r.Set("kfake_plans_per_assignor", s.PerAssign)
 		r.Set("kfake_bound_completed", s.Bound)
 		r.Set("kfake_extra", s.Extra)
+		r.Set("kfake_harness_wall_s", s.Wall)
 		for _, smp := range s.Samples {
 			r.Sample(smp)
 		}
